@@ -31,7 +31,9 @@ fn main() {
     let a: Vec<String> = std::env::args().collect();
     let code = match a.get(1).map(|s| s.as_str()) {
         Some("check") if a.len() >= 3 => {
-            let tier = std::env::var("VERIF_TIER").ok().or_else(|| a.get(3).cloned()).unwrap_or_else(|| "quick".into());
+            // the tier named on the command line wins; VERIF_TIER only fills in when none is given
+            let tier = a.get(3).cloned().or_else(|| std::env::var("VERIF_TIER").ok()).unwrap_or_else(|| "quick".into());
+            std::env::set_var("VERIF_TIER", &tier);
             driver::check(&a[2], &tier)
         }
         Some("worker") if a.len() >= 10 => driver::worker(
